@@ -24,6 +24,7 @@ RULE = ("command sequences sent one at a time by a raw peer: (a) model-guided ra
         "distinct = distinct (command, reply) transcripts; non-trivial = at least 2 commands after login.")
 RULE += ("  " + 'Also: REST arguments of thousands of digits; the random, pair and targeted sequences under non-default server configurations (wait_future_timeout=None, connection limits of 1, all time-outs set).')
 RULE += ("  " + 'Also: a command (PWD, TYPE, CWD, CDUP, MLST, SYST, NOOP) between the 1xx mark and the data connection, modelled sequentially; accounts whose connection limit is held by other sessions.')
+RULE += ("  " + 'Also (round 7): a transfer command refused without a mark leaves its prepared data connection open and the next transfer command uses it (no new PASV / EPSV): the restart offset was for the refused command only (the model lets it lapse with every command but REST).')
 ASSUMPTIONS = [
     "harness/ftpmodel.py is the specification; where it returns a set of outcomes any member is accepted",
     "the peer re-issues PASV/EPSV before a transfer whenever its previous data connection was not consumed by a "
